@@ -7,10 +7,12 @@ props = [json.loads(l) for l in open(os.path.join(ROOT, "properties.jsonl"))]
 base = json.load(open("/root/.vp/BASELINE.json"))
 checks, na = [], []
 PENDING = {}
+# property checks that are complete (a module file may exist while a helper is still writing it)
+READY = set(open(os.path.join(ROOT, "tools", "ready.txt")).read().split())
 for p in props:
     pid = p["id"]
     path = os.path.join(ROOT, "harness", "props", pid.lower() + ".py")
-    if not os.path.exists(path):
+    if not os.path.exists(path) or pid not in READY:
         na.append({"property_id": pid, "reason": PENDING.get(pid, "check not built yet in this tree (Lean model of this part of lasio still to be written); not claimed")})
         continue
     m = importlib.import_module("harness.props." + pid.lower())
@@ -27,7 +29,7 @@ for p in props:
     })
 man = {
     "version": 1,
-    "setup_cmd": "cd lean && lake build lasio_driver && (lake build LasioProofs || true) && cd .. && ./check --selftest",
+    "setup_cmd": "cd lean && lake build lasio_driver && (lake build " + " ".join("LasioProofs.Props." + c["property_id"] for c in checks) + " || true) && cd .. && ./check --selftest",
     "hooks": {"guard": "KINVERARITY1_LASIO_VERIF", "enable": "none - all instrumentation is in-process wrapping by the harness; no hook commits in /repo",
               "baseline_off_cmd": base["cmd"], "source_commits": [], "add_only": True},
     "engines": [{"name": "lean-model+correspondence", "path": "lean/ + harness/", "serves_properties": [c["property_id"] for c in checks],
